@@ -446,6 +446,11 @@ def key_cases(chk, n):
             kw["convert_unicode"] = False
         cases.append(dict(roots=[("Root", samples)], envspec={}, policy=DR.POLICIES[1], fw=fw,
                           layout=rng.choice(["flat", "nested"]), kw=kw, indomain=indomain))
+    # a key that starts with a digit next to its own spelled-out form: the digit rule turns "1a" into "one_a" (distinct after case /
+    # punctuation folding, so inside the documented domain): listed known finding of C11
+    for fw in ("pydantic", "dataclasses"):
+        cases.append(dict(roots=[("Root", [{"1a": 1, "one_a": "x", "z": 1}, {"1a": 2, "one_a": "y", "z": 2}])], envspec={}, policy=DR.POLICIES[1],
+                          fw=fw, layout="flat", kw={"meta": True} if fw == "dataclasses" else {}, indomain=True))
     return cases
 
 
@@ -555,6 +560,11 @@ def converter_cases(chk, n):
             kw["meta"] = True
         cases.append(dict(roots=[("Root", samples)], envspec={"datetime": True, "dkr": [r"k\d"]}, policy=DR.POLICIES[1], fw=fw,
                           layout="flat", kw=kw))
+    # a key with two leading underscores (OData's "__count", "__metadata"): the field name is class-private, Python mangles it in the class
+    # body, the converter path still carries the literal name: listed known finding of C18
+    for fw in ("attrs", "dataclasses"):
+        cases.append(dict(roots=[("Root", [{"__count": "504", "n": 1}, {"__count": "7", "n": 2}])], envspec={}, policy=DR.POLICIES[1], fw=fw,
+                          layout="flat", kw={"post_init_converters": True}))
     return cases
 
 
@@ -619,6 +629,9 @@ def label_traces(chk, maxlen):
     return traces, inputs
 
 
+LENIENT_DATETIME = ["Sun", "May", "friday", "10:30 AM", "3pm", "2018-01", "2018-01-02T03", "2018-W01-1", "2018-001"]
+
+
 def mixed_pseudo_cases(chk, n):
     """a field that sees strings of two different pseudo-types (or a pseudo-typed and a plain one), across samples or in one
     list: whatever they resolve to, the emitted model must still accept every sample (C01 at the emitted level)"""
@@ -626,6 +639,14 @@ def mixed_pseudo_cases(chk, n):
     kinds = list(PSEUDO_LEAVES) + ["plain"]
     pairs = [(a, b) for a in kinds for b in kinds if a < b]
     cases = []
+    # strings the library's date / time detection accepts although they are not in the formats of the emitted annotation's own parser
+    # (dateutil's fuzzy time parser: weekday and month names, 12-hour clock; every isoparse format: year-month, week dates, ordinal dates,
+    # hour-only times), and an integer beyond the range of float next to a float: listed known findings of C01
+    for s_ in LENIENT_DATETIME:
+        cases.append(dict(roots=[("Root", [{"f": s_, "g": 1}, {"f": s_, "g": 2}])], envspec={"datetime": True}, policy=DR.POLICIES[1],
+                          fw=rng.choice(["pydantic", "sqlmodel"]), layout="flat", kw={}))
+    cases.append(dict(roots=[("Root", [{"f": 10 ** 400, "g": 1}, {"f": 1.5, "g": 2}])], envspec={}, policy=DR.POLICIES[1], fw="pydantic",
+                      layout="flat", kw={}))
     for i in range(n):
         a, b = pairs[i % len(pairs)]
         va = rng.choice(PSEUDO_LEAVES.get(a) or ["foo", "bar"])
